@@ -146,6 +146,22 @@ fn oracle(c: &Case, acc: &mut Acc) -> CaseResult {
             let key = expand(*seed, 1, (*klen).min(kind.block_len()));
             let data = expand(*seed, 2, *dlen);
             let mut out = [0u8; 64];
+            // hmac() is documented to clobber whatever state the object holds: leave some behind
+            match seed % 4 {
+                1 => h.input(&expand(*seed, 9, (*seed % 200) as usize)),
+                2 => {
+                    // an earlier HMAC with a longer key on the same object
+                    let k0 = expand(*seed, 8, kind.block_len());
+                    h.hmac(&k0, b"earlier", &mut out);
+                },
+                3 => {
+                    h.input(b"x");
+                    let mut t = [0u8; 64];
+                    h.result(&mut t);
+                    h.input(b"pending after a result");
+                },
+                _ => {},
+            }
             h.hmac(&key, &data, &mut out);
             let want = rc::hmac(*kind, &key, &data);
             ensure!(out[..kind.hash_len()] == want[..], "{be:?} HMAC-{}: key {} bytes, data {} bytes: differs from RFC 2104", kind.name(), key.len(), data.len());
@@ -162,6 +178,11 @@ fn oracle(c: &Case, acc: &mut Acc) -> CaseResult {
             let ck = expand(*seed, 3, hl);
             let ikm = expand(*seed, 4, *ikm_len);
             let (mut o1, mut o2, mut o3) = ([0u8; 64], [0u8; 64], [0u8; 64]);
+            if seed % 3 == 1 {
+                h.input(&expand(*seed, 9, (*seed % 150) as usize)); // pending, unfinalised input
+            } else if seed % 3 == 2 {
+                h.hkdf(&expand(*seed, 10, hl), b"earlier ikm", 3, &mut o1, &mut o2, &mut o3);
+            }
             match outputs {
                 1 => h.hkdf(&ck, &ikm, 1, &mut o1, &mut [], &mut []),
                 2 => h.hkdf(&ck, &ikm, 2, &mut o1, &mut o2, &mut []),
@@ -284,6 +305,9 @@ fn oracle(c: &Case, acc: &mut Acc) -> CaseResult {
             let k3 = rc::rekey(*kind, &k2);
             ci.encrypt(0, b"", b"hello", &mut out);
             ensure!(out == oracle_aead(*be, *kind, &k3, 0, b"", b"hello"), "{be:?} {}: second rekey()", kind.name());
+            let ct = oracle_aead(*be, *kind, &k3, 7, b"ad", b"after rekey");
+            let mut dec = [0u8; 11];
+            ensure!(ci.decrypt(7, b"ad", &ct, &mut dec) == Ok(11) && &dec == b"after rekey", "{be:?} {}: decrypt after rekey()", kind.name());
             acc.label("rekey");
             acc.nontrivial(&format!("{c:?}"));
         },
@@ -292,6 +316,14 @@ fn oracle(c: &Case, acc: &mut Acc) -> CaseResult {
             ensure!(d.pub_len() == kind.pub_len() && d.priv_len() == 32 && d.dh_len() == 32 && d.name() == kind.name(), "dh lengths/name");
             let mut a = priv_from_seed(*kind, *seed, 1);
             let b = priv_from_seed(*kind, *seed, 2);
+            if *kind == DhKind::P256 && edge % 6 == 1 {
+                a[0] = 0;
+                a[1] = 0; // scalar with leading zero bytes
+            }
+            if *kind == DhKind::P256 && edge % 6 == 2 {
+                a = [0u8; 32];
+                a[31] = 1 + (*seed % 200) as u8; // very small scalar
+            }
             if *kind == DhKind::X25519 {
                 // clamping edge bits in the private key
                 match edge % 6 {
@@ -355,6 +387,9 @@ fn oracle(c: &Case, acc: &mut Acc) -> CaseResult {
             let mut d2 = DefaultResolver.resolve_dh(&snow_dh(*kind)).ok_or("no dh")?;
             let shared = SharedRng::seeded(*seed, *kind == DhKind::P256);
             let mut rng = VRng(shared.clone());
+            if seed % 2 == 0 {
+                d1.set(&priv_from_seed(*kind, *seed, 77)); // a key set earlier must not survive generate()
+            }
             d1.generate(&mut rng);
             d2.generate(&mut rng);
             for d in [&d1, &d2] {
@@ -501,10 +536,10 @@ pub fn run(ctx: &Ctx) {
             let nonce = prop_oneof![2 => any::<u64>(), 1 => (0usize..NONCES.len()).prop_map(|i| NONCES[i]), 1 => (0u32..64).prop_map(|b| 1u64 << b)];
             let len = prop_oneof![6 => 0usize..300, 2 => 0usize..5000, 1 => 65000usize..65520];
             prop_oneof![
-                2 => (be.clone(), hk.clone(), prop::collection::vec(0usize..400, 0..5), any::<u64>()).prop_map(|(be, kind, chunks, seed)| Case::Hash { be, kind, chunks, seed }),
+                2 => (be.clone(), hk.clone(), prop_oneof![3 => prop::collection::vec(0usize..400, 0..5), 1 => prop::collection::vec(0usize..40, 5..60)], any::<u64>()).prop_map(|(be, kind, chunks, seed)| Case::Hash { be, kind, chunks, seed }),
                 2 => (be.clone(), hk.clone(), 0usize..129, 0usize..600, any::<u64>()).prop_map(|(be, kind, klen, dlen, seed)| Case::Hmac { be, kind, klen, dlen, seed }),
                 2 => (be.clone(), hk, 0usize..200, 1usize..4, any::<u64>()).prop_map(|(be, kind, ikm_len, outputs, seed)| Case::Hkdf { be, kind, ikm_len, outputs, seed }),
-                4 => (be.clone(), ck.clone(), nonce.clone(), 0usize..300, len, any::<u64>(), any::<bool>()).prop_map(|(be, kind, nonce, ad_len, pt_len, seed, big_out)| Case::Aead { be, kind, nonce, ad_len, pt_len, seed, big_out }),
+                4 => (be.clone(), ck.clone(), nonce.clone(), prop_oneof![8 => 0usize..300, 1 => 300usize..9000], len, any::<u64>(), any::<bool>()).prop_map(|(be, kind, nonce, ad_len, pt_len, seed, big_out)| Case::Aead { be, kind, nonce, ad_len, pt_len, seed, big_out }),
                 3 => (be, ck, nonce, 0usize..100, 0usize..200, any::<u64>(), 0u8..5, any::<u16>()).prop_map(|(be, kind, nonce, ad_len, pt_len, seed, what, bit)| Case::AeadReject { be, kind, nonce, ad_len, pt_len, seed, what, bit }),
                 2 => (any::<bool>(), any::<u64>(), 0u8..36).prop_map(|(p, seed, edge)| Case::Dh { kind: if p { DhKind::P256 } else { DhKind::X25519 }, seed, edge }),
                 1 => (any::<bool>(), any::<u64>()).prop_map(|(p, seed)| Case::DhGenerate { kind: if p { DhKind::P256 } else { DhKind::X25519 }, seed }),
